@@ -7,6 +7,7 @@ import Hive.Proofs.AdsRealm
 import Hive.Proofs.AdsId
 import Hive.Proofs.AdsTyped
 import Hive.Model.AdsFault
+import Hive.Proofs.AdsAdapter
 import Hive.Gen.C09_Skel
 import Hive.Gen.C09_Consts
 /-!
@@ -1085,6 +1086,26 @@ theorem C09_fault_size_lags_witness :
   decide
 
 end Faults
+
+/-! ## the node-store adapter at the level of buffers (`Hive/Model/AdsAdapter.lean`) -/
+
+section AdapterBuffers
+open Adapter
+
+/-- **Whatever the trie holds on to stays as it was handed out**: with the adapter as written (`Get` forwards the
+store's private copy, `Set` hands the store a buffer it copies), after any sequence of node reads, writes and deletes
+every buffer `Get` ever returned still holds the bytes it held then — the trie may keep sub-slices of them forever. -/
+theorem C09_adapter_buffers_stay_intact (ops : List AOp) : Intact (arun .forward ainit ops) :=
+  (ainv_run ops ainit ainv_init).intact
+
+/-- **One reused read buffer breaks it** (the seeded change r6-1): two nodes are flushed, both are read back — the
+first node the trie holds has become the second. -/
+theorem C09_adapter_reused_buffer_witness :
+    ¬ Intact (arun .reuse ainit [.set [1] [10, 11], .set [2] [20, 21], .get [1], .get [2]]) ∧
+    Intact (arun .forward ainit [.set [1] [10, 11], .set [2] [20, 21], .get [1], .get [2]]) := by
+  decide
+
+end AdapterBuffers
 
 /-! ## the hypotheses are satisfiable; a concrete non-trivial run -/
 
